@@ -40,7 +40,7 @@ Definition rb_body (m : bool) (src base : uri) : uri :=
     let d := if negb (is_host_set src) && is_host_set base then set_scheme (scheme src) d else d in
     copy_path (copy_authority d src) src
   else if m then
-    fix_ambiguity (set_absolutePath true (copy_path d src))
+    fix_ambiguity (fix_empty_trail_segment (set_absolutePath true (copy_path d src)))
   else
     let '(s, b) := skip_common (pathSegs src) (pathSegs base) in
     let ups := parents b in
@@ -112,7 +112,7 @@ Proof.
   unfold rb_body. rewrite He. cbn [negb].
   destruct (equals_authority src base) eqn:Ea; cbn [negb].
   - destruct m.
-    + rewrite scheme_fixamb. reflexivity.
+    + rewrite scheme_fixamb, fixtrail_nf. reflexivity.
     + destruct (skip_common (pathSegs src) (pathSegs base)) as [s b]. reflexivity.
   - destruct Hr as [Hr|[Hr|Hr]]; [rewrite Hr|rewrite Hr, andb_false_r|discriminate Hr]; reflexivity.
 Qed.
@@ -166,19 +166,36 @@ Proof.
   intros Hs Hb He Ea. rewrite (remove_base_nf m src base Hs Hb). cbn [snd].
   unfold rb_body. rewrite He, Ea. cbn [negb]. cbv zeta.
   destruct m.
-  - rewrite fixamb_nf. repeat split.
+  - rewrite fixamb_nf, fixtrail_nf. repeat split.
   - destruct (skip_common (pathSegs src) (pathSegs base)) as [s b]. repeat split.
 Qed.
 
-(* domain-root mode: the source's path, made absolute (and guarded against a leading "//") *)
+(* domain-root mode: the source's path, made absolute: the lone empty segment dropped ("/" is the
+   absolute path without segments), and guarded against a leading "//" *)
 Lemma rb_domain_root src base : scheme src <> None -> scheme base <> None ->
   range_eqb (scheme src) (scheme base) = true -> equals_authority src base = true ->
   let r := snd (remove_base true src base) in
-  absolutePath r = true /\ pathSegs r = fixamb_p false true (pathSegs src).
+  absolutePath r = true /\ pathSegs r = fixamb_p false true (fixtrail_p false (pathSegs src)).
 Proof.
   intros Hs Hb He Ea. rewrite (remove_base_nf true src base Hs Hb). cbn [snd].
   unfold rb_body. rewrite He, Ea. cbn [negb]. cbv zeta.
-  rewrite fixamb_nf. split; reflexivity.
+  rewrite fixamb_nf, fixtrail_nf. split; reflexivity.
+Qed.
+
+(* the two steps on the segment list: only the list [[]] is changed by the first, and then the second
+   has nothing to do *)
+Lemma fixamb_fixtrail_abs s :
+  fixamb_p false true (fixtrail_p false s) = match s with [[]] => [] | _ => fixamb_p false true s end.
+Proof. destruct s as [|[|c x] [|y l]]; reflexivity. Qed.
+
+Lemma rb_body_domain_root src base :
+  range_eqb (scheme src) (scheme base) = true -> equals_authority src base = true ->
+  rb_body true src base
+  = set_pathSegs (fixamb_p false true (fixtrail_p false (pathSegs src)))
+      (set_absolutePath true (copy_path empty_uri src)).
+Proof.
+  intros He Ea. unfold rb_body. rewrite He, Ea. cbn [negb]. rewrite fixamb_nf, fixtrail_nf.
+  destruct src as [sc ui ht i4 i6 ifu po ps qu fr ab ow]. reflexivity.
 Qed.
 
 (* the other mode: one ".." for every remaining base segment but the last, then the remaining source
@@ -695,9 +712,8 @@ Theorem roundtrip_domain_root src base : scheme src <> None -> scheme base <> No
 Proof.
   intros Hs Hb He Ea Hhost Hroot Hd Hw Hl. cbv zeta.
   rewrite (remove_base_nf true src base Hs Hb). cbn [snd].
-  unfold rb_body. rewrite He, Ea. cbn [negb]. rewrite fixamb_nf. usimpl.
-  change (is_host_set (set_absolutePath true (copy_path empty_uri src))) with false.
-  set (P := fixamb_p false true (pathSegs src)).
+  rewrite (rb_body_domain_root src base He Ea).
+  set (P := fixamb_p false true (fixtrail_p false (pathSegs src))).
   set (r := set_fragment (fragment src) (set_query (query src) (set_pathSegs P (set_absolutePath true (copy_path empty_uri src))))).
   assert (scheme r = None) as R1 by reflexivity.
   assert (is_host_set r = false) as R2 by reflexivity.
@@ -713,8 +729,8 @@ Proof.
     split.
     { rewrite B3. cbn [negb fixtrail_p]. rewrite fixamb_host. subst P.
       destruct (pathSegs src) as [|x l] eqn:Ep; [reflexivity|].
-      destruct x as [|c x]; [destruct l as [|y l]|]; cbn [fixamb_p].
-      + apply rds_p_fixed. exact Hd.
+      destruct x as [|c x]; [destruct l as [|y l]|]; cbn [fixamb_p fixtrail_p negb].
+      + reflexivity.
       + unfold rds_p. rewrite walk_false_cons. change (seg_dot [46]) with true. cbv iota.
         exact (rds_walk_fixed true false _ Hd).
       + destruct l; apply rds_p_fixed; exact Hd. }
@@ -726,7 +742,7 @@ Proof.
     assert (fixtrail_p false (pathSegs src) = pathSegs src) as F2
       by (pose proof (fixtrail_not_lone src Hl) as F; rewrite Hh in F; exact F).
     split.
-    { rewrite B3. subst P. cbn [negb]. rewrite F1, (rds_p_fixed _ _ _ Hd), F1. exact F2. }
+    { rewrite B3. subst P. cbn [negb]. rewrite F2, F1, (rds_p_fixed _ _ _ Hd), F1. exact F2. }
     split; [rewrite B4, Hab; reflexivity|]. split; [rewrite B5|rewrite B6]; reflexivity.
 Qed.
 
@@ -833,6 +849,12 @@ Definition walk_ok_dotted (src base : uri) : bool :=
   && forallb nodot (snd (skip_common (pathSegs src) (pathSegs base)))
   && forallb nonul (pathSegs src)
   && wf src && wf base.
+
+Lemma trail_fixtrail h a p : trail_p h (rds_p h a (fixtrail_p h p)) = trail_p h (rds_p h a p).
+Proof.
+  destruct h; [reflexivity|]. cbn [fixtrail_p negb].
+  destruct p as [|[|c x] [|y l]]; try reflexivity.
+Qed.
 
 (* cleaning the result once more undoes what uriFixAmbiguity and uriFixEmptyTrailSegment did to it *)
 Lemma canon_path h a R : (h = true -> a = false) -> forallb nodot R = true ->
@@ -1028,9 +1050,8 @@ Theorem roundtrip_domain_root_any src base : scheme src <> None -> scheme base <
 Proof.
   intros Hs Hb He Ea Hhost Hroot Hw. cbv zeta.
   rewrite (remove_base_nf true src base Hs Hb). cbn [snd].
-  unfold rb_body. rewrite He, Ea. cbn [negb]. rewrite fixamb_nf. usimpl.
-  change (is_host_set (set_absolutePath true (copy_path empty_uri src))) with false.
-  set (P := fixamb_p false true (pathSegs src)).
+  rewrite (rb_body_domain_root src base He Ea).
+  set (P := fixamb_p false true (fixtrail_p false (pathSegs src))).
   set (r := set_fragment (fragment src) (set_query (query src) (set_pathSegs P (set_absolutePath true (copy_path empty_uri src))))).
   assert (scheme r = None) as R1 by reflexivity.
   assert (is_host_set r = false) as R2 by reflexivity.
@@ -1047,13 +1068,10 @@ Proof.
     rewrite (host_of_auth_fields _ _ B2), host_copy_authority, B4, B3, <- Hhost, Eabs.
     destruct (is_host_set src) eqn:Hh; cbn [negb].
     - rewrite fixamb_host. cbn [fixtrail_p negb]. rewrite (rds_p_fixed _ _ _ (rds_p_nodots _ _ _)).
-      destruct P as [|p1 pr] eqn:EP.
-      + assert (pathSegs src = []) as Eps.
-        { subst P. destruct (pathSegs src) as [|[|c x] [|y l]]; try discriminate EP. reflexivity. }
-        rewrite Eps. reflexivity.
-      + rewrite <- EP. subst P. rewrite rds_p_fixamb. reflexivity.
+      subst P. rewrite fixamb_fixtrail_abs.
+      destruct (pathSegs src) as [|[|c x] [|y l]]; cbn [fixamb_p]; reflexivity.
     - subst P. rewrite rds_p_fixamb.
-      apply canon_path; [discriminate|apply rds_p_nodots]. }
+      etransitivity; [apply canon_path; [discriminate|apply rds_p_nodots]|apply trail_fixtrail]. }
   split; [rewrite B4, <- Hhost, Eabs; reflexivity|]. split; [rewrite B5|rewrite B6]; reflexivity.
 Qed.
 
@@ -1086,12 +1104,6 @@ Proof.
   intros Hb Hs Hh Ha Hp. unfold add_base, add_base_impl.
   destruct (scheme base) as [sb|]; [|congruence]. cbv zeta.
   rewrite Hs. cbn [is_some andb]. rewrite Hh, Ha, Hp. reflexivity.
-Qed.
-
-Lemma trail_fixtrail h a p : trail_p h (rds_p h a (fixtrail_p h p)) = trail_p h (rds_p h a p).
-Proof.
-  destruct h; [reflexivity|]. cbn [fixtrail_p negb].
-  destruct p as [|[|c x] [|y l]]; try reflexivity.
 Qed.
 
 Theorem roundtrip_same_path src base : scheme src <> None -> scheme base <> None ->
@@ -1368,3 +1380,103 @@ Lemma walk_ok_object_clauses :
       let b := obj None true [[97]] in
       walk_ok_dotted s b = true /\ walk_ok s b = false /\ back_path s b = []).
 Proof. vm_compute. repeat split. Qed.
+
+(* ---------------------------------------------------------------- 8. the reference holds no lone empty segment *)
+(* [lone_empty_hostless] (Spec/NormalWf.v): no host, the path is exactly one empty segment -- the object
+   uriFixEmptyTrailSegment removes.  Since uriRemoveBaseUriMm calls it in domain-root mode (the repair
+   of the "lone empty segment" witness of Props/C11text.v) the reference has this shape only when it is
+   a copy of a source that has it. *)
+Lemma lone_fixtrail u : lone_empty_hostless (fix_empty_trail_segment u) = false.
+Proof.
+  rewrite fixtrail_nf. unfold lone_empty_hostless, fixtrail_p. autorewrite with uri_db. usimpl.
+  destruct (is_host_set u); [reflexivity|]. cbn [negb andb].
+  destruct (pathSegs u) as [|[|c x] [|y l]]; reflexivity.
+Qed.
+
+Lemma lone_fixamb u : lone_empty_hostless (fix_ambiguity u) = lone_empty_hostless u.
+Proof.
+  rewrite fixamb_nf. unfold lone_empty_hostless, fixamb_p. autorewrite with uri_db. usimpl.
+  destruct (is_host_set u); [reflexivity|]. cbn [negb andb].
+  destruct (absolutePath u); destruct (pathSegs u) as [|[|c x] [|[|c2 y] l]]; reflexivity.
+Qed.
+
+Lemma lone_query_fragment q f u :
+  lone_empty_hostless (set_fragment f (set_query q u)) = lone_empty_hostless u.
+Proof. reflexivity. Qed.
+
+Lemma lone_copy d src : lone_empty_hostless (copy_path (copy_authority d src) src) = lone_empty_hostless src.
+Proof.
+  unfold lone_empty_hostless. autorewrite with uri_db.
+  destruct src as [sc ui ht i4 i6 ifu po ps qu fr ab ow]. reflexivity.
+Qed.
+
+(* the list the walk builds is never the single empty segment *)
+Lemma walk_segments_not_lone b s :
+  match parents b ++ rest_segments (match parents b with [] => true | _ => false end) s with
+  | [[]] => true | _ => false
+  end = false.
+Proof.
+  destruct (parents b) as [|u ups] eqn:Eu.
+  - cbn [app]. unfold rest_segments. destruct s as [|[|c x] s']; [reflexivity| |].
+    + cbn [andb orb app]. rewrite orb_true_r. reflexivity.
+    + cbn [andb]. destruct (has_colon (c :: x) || false); reflexivity.
+  - assert (u = dd) as ->.
+    { pose proof (parents_repeat b) as Hr. rewrite Eu in Hr.
+      destruct (length (removelast b)); cbn [repeat] in Hr; [discriminate Hr|]. injection Hr as Hu _. exact Hu. }
+    reflexivity.
+Qed.
+
+(* same scheme, same authority (either mode): never, whatever the source and the base are *)
+Theorem remove_base_same_authority_no_lone_empty m src base :
+  range_eqb (scheme src) (scheme base) = true -> equals_authority src base = true ->
+  lone_empty_hostless (snd (remove_base m src base)) = false.
+Proof.
+  intros He Ea. unfold remove_base, remove_base_impl.
+  destruct (scheme base) as [sb|] eqn:Esb; [|reflexivity]. destruct (scheme src) as [ss|] eqn:Ess; [|reflexivity].
+  cbn [snd]. rewrite lone_query_fragment, He, Ea. cbn [negb].
+  destruct m.
+  - rewrite lone_fixamb. apply lone_fixtrail.
+  - destruct (skip_common (pathSegs src) (pathSegs base)) as [s b].
+    unfold lone_empty_hostless. usimpl. exact (walk_segments_not_lone b s).
+Qed.
+
+(* in general: only as a copy of a source of that shape.  No hypothesis on the base, none on the
+   source but the one named; the result of a failed call is the empty object *)
+Theorem remove_base_no_lone_empty m src base : lone_empty_hostless src = false ->
+  lone_empty_hostless (snd (remove_base m src base)) = false.
+Proof.
+  intros Hl.
+  destruct (range_eqb (scheme src) (scheme base)) eqn:He;
+    [destruct (equals_authority src base) eqn:Ea;
+       [exact (remove_base_same_authority_no_lone_empty m src base He Ea)|]|];
+    unfold remove_base, remove_base_impl;
+    (destruct (scheme base) as [sb|] eqn:Esb; [|reflexivity]); (destruct (scheme src) as [ss|] eqn:Ess; [|reflexivity]);
+    cbn [snd]; rewrite lone_query_fragment, He, ?Ea; cbn [negb]; rewrite lone_copy; exact Hl.
+Qed.
+
+(* exactly: the reference has the shape iff the call succeeds, the source has the shape, and the
+   reference is a copy of the source (other scheme or other authority) *)
+Theorem remove_base_lone_empty_iff m src base :
+  lone_empty_hostless (snd (remove_base m src base)) = true <->
+  scheme src <> None /\ scheme base <> None /\ lone_empty_hostless src = true
+  /\ (range_eqb (scheme src) (scheme base) = false \/ equals_authority src base = false).
+Proof.
+  split.
+  - intros H.
+    destruct (scheme base) as [sb|] eqn:Esb.
+    2:{ rewrite (remove_base_rel_base m src base Esb) in H. discriminate H. }
+    destruct (scheme src) as [ss|] eqn:Ess.
+    2:{ rewrite (remove_base_rel_source m src base) in H; [discriminate H|congruence|exact Ess]. }
+    split; [discriminate|]. split; [discriminate|].
+    destruct (lone_empty_hostless src) eqn:Hl.
+    2:{ rewrite (remove_base_no_lone_empty m src base Hl) in H. discriminate H. }
+    split; [reflexivity|].
+    destruct (range_eqb (Some ss) (Some sb)) eqn:He; [|left; reflexivity].
+    destruct (equals_authority src base) eqn:Ea; [|right; reflexivity].
+    rewrite <- Ess, <- Esb in He.
+    rewrite (remove_base_same_authority_no_lone_empty m src base He Ea) in H. discriminate H.
+  - intros (Hs & Hb & Hl & Hc). rewrite (remove_base_nf m src base Hs Hb). cbn [snd].
+    rewrite lone_query_fragment. unfold rb_body.
+    destruct (range_eqb (scheme src) (scheme base)) eqn:He; cbn [negb]; [|rewrite lone_copy; exact Hl].
+    destruct Hc as [Hc|Hc]; [discriminate Hc|]. rewrite Hc. cbn [negb]. cbv zeta. rewrite lone_copy. exact Hl.
+Qed.
